@@ -52,6 +52,12 @@ CHECKS['C05'] = dict(technique='offline identity checker over recorded API calls
 CHECKS['C12'] = dict(technique='offline relation/quadrature checker over recorded API calls',
              text='Thomson, Klein-Nishina and Compton-energy functions are sampled over 1e-6..1e6 keV x theta/phi grids; positivity, the solid-angle integral of DCS_KN (graded Gauss-Legendre with an error estimate), azimuthal averages, Thomson limits and bounds, the Compton-ratio form, monotonicity, evenness and periodicity are asserted on the returned values.',
              note='Trusted: numpy quadrature (points whose quadrature error estimate exceeds 1e-11 are counted as inconclusive, none observed).', ref='2 C12')
+CHECKS['C06'] = dict(technique='offline mixture-rule checker over recorded API calls (composition and elemental values from the public API)',
+             text='For generated formulas over all weighable elements, all NIST names, unknown names and NULL, the 21 _CP functions and the 3 refractive-index entry points are compared with sum(w_i f(Z_i)) and the refractive-index formulas built from the library\'s own composition and elemental results, including the density rules and the failure side, in both data configurations.',
+             note='Trusted: numpy; refractive-index constants derived from header constants (compared on delta = 1 - Re).', ref='2 C06')
+CHECKS['C07'] = dict(technique='reference-model differential monitor (independent exact-rational parser) with metamorphic rewrites, mutation-generated malformed strings and a locale monitor',
+             text='Every symbol, ordered pair, grammar-generated formula and its algebraic rewrites is parsed by the library and by an independent recursive-descent model with exact rationals; single-character mutants of valid formulas (all bytes) must be rejected when the statement names their defect class; add_compound_data is compared with the union/weighted-sum model; runs are repeated under C, C.utf8 and a synthetic comma-decimal locale with the locale recorded before and after every call.',
+             note='Trusted: xv/oracles/formula_model.py; forms the statement does not rule on (.5, 5., (), overflow) are not judged.', ref='2 C07')
 NOT_APPLICABLE = [
  dict(property_id='C20', reason='Fortran/Pascal/Cython/IDL/SWIG interface files cannot be compiled, loaded or executed in this sandbox (no gfortran, fpc, Cython, swig, IDL), so there is no execution for a runtime monitor to observe; comparing their text is static analysis, a different technique. The executable slices (Java constants, C++ header, exported symbols) are monitored as by-products of C19/C18/C03.'),
 ]
